@@ -31,8 +31,9 @@ RULE = ("random object trees (depth 0..4; cfg'd/plain/empty blocks; registers, c
         "(model only); distinct = distinct (tree shape, cfg placement) up to names")
 
 KNOWN_PATH = os.path.join(vlib.VERIF, "KNOWN_FINDINGS.jsonl")
-ATOMS = ['feature = "fa"', 'feature = "fb"', 'feature = "fc"', 'feature = "fd"', 'feature = "fe"', 'feature = "ff"',
-         'unix', 'target_os = "linux"']
+# mostly short bare-identifier predicates (the model's output is read back character by character: keep it small),
+# some key = "value" predicates
+ATOMS = ["fa", "fb", "fc", "fd", "fe", "ff", "fg", "unix", 'feature = "x"', 'target_os = "linux"']
 D6_CLASS = ("object follows the end of two or more nested blocks at once (an empty block counts as a level): "
             "propagate_cfg pops its stack once, the object and everything after it in pre-order is gated by the cfg of a "
             "block that does not enclose it")
@@ -175,9 +176,9 @@ def gen_spine(rng, nm, k):
 
 def gen_def(rng):
     nm = Names()
-    maxdepth = rng.choice([0, 1, 2, 2, 3, 3, 4, 4])
+    maxdepth = rng.choice([0, 1, 2, 2, 2, 3, 3, 4, 4])
     objs = gen_level(rng, nm, 0, maxdepth, None, False)
-    if maxdepth >= 2 and rng.random() < 0.55:
+    if maxdepth >= 2 and rng.random() < 0.7:
         k = rng.randint(2, maxdepth)
         pos = rng.randint(0, len(objs))
         tail = [gen_leaf(rng, nm, None)] if rng.random() < 0.7 else \
@@ -349,10 +350,10 @@ def parse_listing(s, with_raw):
         cols = part.split("@")
         key = cols[0]
         attr = canon_atoms([a for a in cols[1].split("|") if a])
-        eff = canon_atoms([a for a in cols[2].split("|") if a])
+        eff = attr if cols[2] == "=" else canon_atoms([a for a in cols[2].split("|") if a])
         raw = None
         if with_raw:
-            raw = () if cols[3] == "-" else (strip_ws(cols[3]),)
+            raw = () if cols[3] == "-" else (strip_ws(cols[1] if cols[3] == "=" else cols[3]),)
         out[key] = (attr, eff, raw)
     return out
 
@@ -383,7 +384,8 @@ def evaluate(ctx, status, texts, tag):
             rec["obs"] = observe(r["facts"], rec["info"])
             rec["warnings"] = r["facts"].get("facts_warnings") or r.get("facts_warnings")
     fn = "c18_both_fixed" if status == "fixed" else "c18_both_code"
-    out = gen_common.eval_model(ctx, ["Cfg"], fn, terms, tag=tag + "_model")
+    out = vlib.coq_eval_strings(ctx, gen_common.PREAMBLE.format(mods="Cfg"), [(i, f"{fn} ({t})") for i, t in terms],
+                                shard_size=max(8, min(60, (len(terms) + 15) // 16)), tag=tag + "_model")
     for cid, s in out.items():
         rec = recs[cid]
         if s.startswith("<<COQ-ERROR") or "##" not in s:
